@@ -62,8 +62,8 @@ func pinc(l string, d ...dev) call { return call{API: "Pin", Cid: l, Opts: optse
 // search found. Each goes through the same reference and reports under the same
 // keys as the search.
 func TestCandidates(t *testing.T) {
-	leader := config{-1, -1, false}
-	follower := config{-1, -1, true}
+	leader := config{Min: -1, Max: -1}
+	follower := config{Min: -1, Max: -1, Follower: true}
 	m := devs["meta"]
 	kv, kvk2, k2, kEmpty, emptyKey, none := m[1], m[3], m[4], m[5], m[6], m[0]
 
